@@ -2794,18 +2794,14 @@ class Network(Cached):
         link_betweenness = self.graph.edge_betweenness()
 
         #  Initialize
-        result, ecount = np.zeros((self.N, self.N)), 0
+        result = np.zeros((self.N, self.N))
 
-        #  Get graph adjacency list
-        A_list = self.graph.get_adjlist()
-
-        #  Write link betweenness values to matrix
-        for i, Ai in enumerate(A_list):
-            for j in Ai:
-                #  Only visit links once
-                if i < j:
-                    result[i, j] = result[j, i] = link_betweenness[ecount]
-                    ecount += 1
+        #  Write link betweenness values to matrix.  igraph numbers the links
+        #  in the order in which the graph object received them, which is not
+        #  the sorted order for graphs from FromIGraph() / Load().
+        for e in self.graph.es:
+            i, j = e.tuple
+            result[i, j] = result[j, i] = link_betweenness[e.index]
         return result
 
     def edge_betweenness(self):
